@@ -871,3 +871,157 @@ def pickle_parts(w, cfg):
         w.canary('canary: concrete', w.eq(1., 2.))
     else:
         raise ValueError(part)
+
+
+# =========================================================================== histories: sequences of copy / link / unlink / proxy / copy_like / write
+
+class _Cell:
+    """One shared container of the abstract model; `v` is its current value."""
+    __slots__ = ('v',)
+
+    def __init__(self, v): self.v = v
+
+
+class _Rec:
+    """Abstract indexer: the flow cell and the phase cell (a proxy shares the whole record with its original)."""
+    __slots__ = ('flow', 'phase')
+
+    def __init__(self, flow, phase): self.flow, self.phase = flow, phase
+
+
+class _M:
+    """Abstract stream: which containers it points to."""
+    __slots__ = ('rec', 'TP')
+
+    def __init__(self, rec, TP): self.rec, self.TP = rec, TP
+
+    def cell(self, part):
+        return self.TP if part == 'TP' else getattr(self.rec, part)
+
+
+LINK_CHOICES = {'all': (True, True, True), 'flow': (True, False, False), 'phase': (False, True, False), 'TP': (False, False, True),
+                'flow+TP': (True, False, True)}
+
+
+def _seq_alphabet(multi):
+    ops = []
+    for a, b in ((0, 1), (1, 0)):
+        for f in (('all', 'flow', 'TP') if multi else ('all', 'flow', 'phase', 'TP', 'flow+TP')):
+            ops.append(f'L{a}{b}:{f}')
+        ops.append(f'K{a}{b}')
+    for i in (0, 1, 2):
+        ops += [f'U{i}', f'W{i}']
+    ops += ['P0', 'F0', 'C0', 'K02', 'K20', 'L21:all', 'L12:flow']
+    return ops
+
+
+def _seq_valid(seq):
+    """Structural filter: stream 2 must exist before it is used, at most one new stream; link_with is not applied to a
+    receiver whose indexer is shared with a proxy (the property does not say which of the two semantics holds there)."""
+    have2 = False
+    aliased = set()      # streams whose indexer object is shared with another stream
+    for op in seq:
+        k = op[0]
+        idx = [int(c) for c in op[1:3] if c.isdigit()]
+        if 2 in idx and not have2 and k not in 'PFC': return False
+        if k in 'PFC':
+            if have2: return False
+            have2 = True
+            if k == 'P': aliased |= {0, 2}
+        elif k == 'L':
+            if idx[0] in aliased: return False
+        elif k == 'U':
+            if idx[0] in aliased: aliased.clear()
+    return True
+
+
+def seq_configs(tier):
+    out = []
+    for fam in ('single', 'multi'):
+        multi = fam == 'multi'
+        alpha = _seq_alphabet(multi)
+        seqs = [(a,) for a in alpha] + list(itertools.product(alpha, repeat=2))
+        if tier == 'thorough':
+            seqs += list(itertools.product(alpha, repeat=3))
+        else:
+            # a fixed sample of length-3 histories around the interesting operations
+            core = ['L01:all', 'L10:flow', 'U0', 'U1', 'U2', 'P0', 'F0', 'C0', 'K01', 'W0', 'W1', 'W2']
+            if not multi: core.append('L01:phase')
+            seqs += [s for s in itertools.product(core, repeat=3) if s[0] in ('L01:all', 'P0', 'F0', 'L10:flow', 'L01:phase')]
+        for s in seqs:
+            if _seq_valid(s):
+                out.append({'name': f'{fam};' + ','.join(s), 'family': fam, 'seq': list(s)})
+    return out
+
+
+@group('C13/sequences', configs=seq_configs,
+       functions=['thermosteam._stream:Stream.link_with', 'thermosteam._stream:Stream.unlink', 'thermosteam._stream:Stream.proxy',
+                  'thermosteam._stream:Stream.flow_proxy', 'thermosteam._stream:Stream.copy', 'thermosteam._stream:Stream.copy_like',
+                  'thermosteam._multi_stream:MultiStream.copy_like'])
+def sequences(w, cfg):
+    W.reset_caches()
+    multi = cfg['family'] == 'multi'
+    parts = ['flow', 'TP'] if multi else ['flow', 'phase', 'TP']
+    kinds = ['c:gl', 'c:gl'] if multi else ['l', 'g']
+    streams = [_mk(w, f's{i}', k, 'A', 'pos') for i, k in enumerate(kinds)]
+
+    def fresh(s):
+        o = obs(s)
+        return _M(_Rec(_Cell(_part(o, 'flow', multi)), _Cell(o['phases'])), _Cell(_part(o, 'TP', multi)))
+
+    model = [fresh(s) for s in streams]
+
+    def check(step):
+        for i, (s, m) in enumerate(zip(streams, model)):
+            o = obs(s)
+            for part in parts:
+                w.ensure(f'step {step}: stream {i}: {part} as modelled', _part_eq(w, _part(o, part, multi), m.cell(part).v))
+            if multi:
+                w.ensure(f'step {step}: stream {i}: phase views consistent', views_consistent(w, s))
+        for i, j in itertools.combinations(range(len(streams)), 2):
+            for part in parts:
+                w.ensure(f'step {step}: streams {i},{j}: {part} shared iff linked',
+                         _part_shared(streams[i], streams[j], part) == (model[i].cell(part) is model[j].cell(part)),
+                         shared=_part_shared(streams[i], streams[j], part))
+
+    for step, op in enumerate(cfg['seq'], 1):
+        k = op[0]
+        idx = [int(c) for c in op[1:3] if c.isdigit()]
+        if k == 'L':
+            a, b = idx
+            flags = LINK_CHOICES[op.split(':')[1]]
+            streams[a].link_with(streams[b], *flags)
+            ma, mb = model[a], model[b]
+            if flags[0]: ma.rec.flow = mb.rec.flow
+            if flags[1] and not multi: ma.rec.phase = mb.rec.phase
+            if flags[2]: ma.TP = mb.TP
+        elif k == 'U':
+            a, = idx
+            streams[a].unlink()
+            m = model[a]
+            model[a] = _M(_Rec(_Cell(dict(m.rec.flow.v)), _Cell(m.rec.phase.v)), _Cell(dict(m.TP.v)))
+        elif k == 'K':
+            a, b = idx
+            streams[a].copy_like(streams[b])
+            ma, mb = model[a], model[b]
+            ma.rec.flow.v = dict(mb.rec.flow.v); ma.rec.phase.v = mb.rec.phase.v; ma.TP.v = dict(mb.TP.v)
+        elif k == 'W':
+            a, = idx
+            s = streams[a]
+            havoc(w, s, f'w{step}')
+            o = obs(s)
+            m = model[a]
+            m.rec.flow.v = _part(o, 'flow', multi); m.TP.v = _part(o, 'TP', multi)
+            if not multi:
+                m.rec.phase.v = ('s',) if m.rec.phase.v != ('s',) else ('l',)
+        elif k in 'PFC':
+            a, = idx
+            s, m = streams[a], model[a]
+            if k == 'P':
+                streams.append(s.proxy()); model.append(_M(m.rec, m.TP))
+            elif k == 'F':
+                streams.append(s.flow_proxy()); model.append(_M(_Rec(m.rec.flow, _Cell(m.rec.phase.v)), _Cell(dict(m.TP.v))))
+            else:
+                streams.append(s.copy()); model.append(_M(_Rec(_Cell(dict(m.rec.flow.v)), _Cell(m.rec.phase.v)), _Cell(dict(m.TP.v))))
+        check(step)
+    w.canary('canary: streams 0 and 1 end with T differing by 1', w.eq(obs(streams[0])['T'], obs(streams[1])['T'] + 1))
